@@ -310,6 +310,10 @@ def const(node, env=None):
         if norm(node.func).endswith('unpack'):
             return _struct.unpack(args[0], bytes(args[1]))
         return _struct.pack(*args)
+    if isinstance(node, ast.Call) and isinstance(node.func, ast.Attribute) and node.func.attr in ('encode', 'decode') \
+            and all(isinstance(a, ast.Constant) for a in node.args):
+        v = const(node.func.value, env)
+        return getattr(v, node.func.attr)(*[a.value for a in node.args])     # str.encode / bytes.decode only
     if isinstance(node, ast.Call) and norm(node.func) == 'memoryview' and len(node.args) == 1:
         return const(node.args[0], env)
     if isinstance(node, ast.Call) and isinstance(node.func, ast.Attribute) and node.func.attr == 'fromhex' \
